@@ -23,10 +23,12 @@ class GenTree:
         return tuple(tuple(len(c) for _, c in lv) for lv in self.model[:-1]) + (len(self.model[-1]),)
 
 
-def build(levels_children, rng=None, rows_per_leaf=0):
+def build(levels_children, rng=None, rows_per_leaf=0, collide=False):
     """levels_children: list over non-leaf levels of list (per node, in order) of child counts;
     the top level has len(levels_children[0]) nodes.  Node ids are drawn at random
-    (if rng) so that dict insertion order differs from sorted order."""
+    (if rng) so that dict insertion order differs from sorted order.
+    collide: every node with >= 2 children shares its NAME with one of its children (names
+    are only unique within a level: 'Sst' = {'Sst', 'Sst Chodl'} is a legitimate taxonomy)."""
     n_levels = len(levels_children) + 1
     counts = [len(levels_children[0])] if levels_children else None
     # number of nodes per level
@@ -41,6 +43,19 @@ def build(levels_children, rng=None, rows_per_leaf=0):
             ids.append(list(range(s)))
         else:
             ids.append(rng.sample(range(0, max(2 * s, s + 3)), s))
+    if collide:
+        for li in range(n_levels - 1):
+            pos = 0
+            for k, node in enumerate(ids[li]):
+                nk = levels_children[li][k]
+                if nk >= 2:
+                    j = pos + (k % nk)
+                    if node in ids[li + 1]:
+                        q = ids[li + 1].index(node)
+                        ids[li + 1][q], ids[li + 1][j] = ids[li + 1][j], ids[li + 1][q]
+                    else:
+                        ids[li + 1][j] = node
+                pos += nk
     level_names = [f'L{i}' for i in range(n_levels)]
     data = {'hierarchy': level_names}
     model = []
